@@ -1,6 +1,7 @@
 import I18n.Lemmas.CheckPluralsFinal
 import I18n.Lemmas.PluralFormsDeclText
 import I18n.Lemmas.CheckPluralsUnusual
+import I18n.Lemmas.CheckPluralsExits
 /-!
 # C07 — Plural-Forms diagnostics are truthful, and complete on the examined window
 
@@ -245,6 +246,27 @@ theorem scan_spec (inp : Input) :
   have := scanMsgs_spec inp.msgs false [] (by simp)
   refine ⟨by simpa [expectedOf] using this.1, expected_single_iff inp, by simpa [hasPlurals] using this.2.2⟩
 
+/-- **`inconsistent_tag_iff`.**  `inconsistent-number-of-plural-forms` is emitted iff two translated, non-obsolete plural
+    messages have different numbers of msgstr[] forms — so "the (consistent) number" of `nplurals_tag_iff` exists exactly when
+    this tag is absent and some plural message is translated. -/
+theorem inconsistent_tag_iff (inp : Input) (pf : List Char) (out : Output) (hv : headerValues inp = [pf]) (ht : inp.isTemplate = false)
+    (h : checkPlurals inp = .ok out) :
+    (∃ t ∈ out.tags, t.name = "inconsistent-number-of-plural-forms") ↔
+      ∃ a ∈ formCounts inp.msgs, ∃ b ∈ formCounts inp.msgs, a ≠ b :=
+  inconsistent_tag_iff' inp pf out hv ht h
+
+/-- **The other exits of the method** (outside the scope of the statement, for completeness of the case map): several distinct
+    values ⇒ only the duplicate tag; no field ⇒ a `no-[required-]plural-forms-header-field` tag iff the catalog has plural
+    messages; a template ⇒ the value is not analysed. -/
+theorem other_exits (inp : Input) :
+    ((headerValues inp).length > 1 → checkPlurals inp = .ok ⟨[⟨"duplicate-header-field-plural-forms", []⟩], none⟩) ∧
+    (headerValues inp = [] → checkPlurals inp = .ok ⟨tags0Of inp ++
+      (if hasPlurals inp then
+        [⟨if (expectedOf inp).isEmpty then "no-plural-forms-header-field" else "no-required-plural-forms-header-field", [hintOf inp]⟩]
+       else []), none⟩) ∧
+    (∀ pf, headerValues inp = [pf] → inp.isTemplate = true → checkPlurals inp = .ok ⟨tags0Of inp, none⟩) :=
+  ⟨report_many inp, report_none inp, report_template inp⟩
+
 /-! ## clause 5: a clean declaration is silent; clause 6: the registry is never unusual -/
 
 /-- **`clean_decl_silent`.**  One Plural-Forms field whose value is exactly a declaration `(n, e)` (no junk) that is total
@@ -382,6 +404,10 @@ example : extrasOf (checkPlurals ⟨["x nplurals=1; plural=0; y".toList], none, 
 /-- nplurals 2 against messages with 3 forms -/
 example : names (checkPlurals ⟨[en], none, [], [plMsg 3], false⟩) = ["incorrect-number-of-plural-forms"] := by decide +kernel
 example : ConsistentCount ⟨[en], none, [], [plMsg 3, plMsg 3], false⟩ 3 := ⟨by decide, by decide⟩
+/-- two translated plural messages with different numbers of forms -/
+example : names (checkPlurals ⟨[en], none, [], [plMsg 2, plMsg 3], false⟩) = ["inconsistent-number-of-plural-forms"] := by decide +kernel
+/-- no field, plural messages translated -/
+example : names (checkPlurals ⟨[], none, [], [plMsg 2], false⟩) = ["no-required-plural-forms-header-field"] := by decide +kernel
 /-- the registry's declaration with agreeing messages: silent (hypotheses of `clean_decl_silent` hold) -/
 example : names (checkPlurals ⟨[en], some [en], [en], [plMsg 2], false⟩) = [] := by decide +kernel
 example : CleanOnWindow 2 (.compare .name .noteq (.num 1)) := cleanOnWindowB_sound (by decide +kernel)
